@@ -18,6 +18,9 @@ def main():
     ap.add_argument('id'); ap.add_argument('patch'); ap.add_argument('demo'); ap.add_argument('meta')
     ap.add_argument('--props'); ap.add_argument('--tier', default='quick')
     a = ap.parse_args()
+    _dest = os.path.join(VERIF, 'seeded', a.id)
+    if os.path.isdir(_dest) and os.path.abspath(a.patch) != os.path.join(_dest, 'patch.diff'):
+        sys.exit(f'seeded/{a.id} already exists: choose a fresh id (a stored seed is only re-evaluated from its own files)')
     wt = f'/tmp/seedwt/{a.id}'
     sh(f'git -C /repo worktree remove --force {wt}')
     os.makedirs('/tmp/seedwt', exist_ok=True)
